@@ -2,3 +2,4 @@ pub mod ast;
 pub mod choose;
 pub mod model;
 pub mod prog;
+pub mod scale;
